@@ -196,6 +196,11 @@ pub fn node(tag: u32, kids: Vec<V>) -> V {
     V::Node(tag, kids)
 }
 
+/// a user action of a `()`-typed nonterminal: only its effect (the log entry) is observable
+pub fn mark(tag: u32) {
+    log_event(tag);
+}
+
 /// a fallible user action
 pub fn fnode(tag: u32, kids: Vec<V>, fail: bool) -> Result<V, PErr> {
     log_event(tag);
